@@ -478,6 +478,51 @@ def _typed_kinds():
     }
 
 
+def _ctor_kinds():
+    """objects whose constructor arguments (key, IV, counter block, nonce) are given as bytearray / memoryview; each is used
+    for three calls in a row"""
+    from crysp.aes import AES
+    from crysp.des import DES
+    from crysp import mode as Mo
+    from crysp.hmac import HMAC
+    from crysp.md import MD5
+    from crysp.skein import Skein
+    from crysp.rc4 import RC4
+    from crysp.threefish import Threefish
+    return {
+        'CBC-AES iv': lambda cv: Mo.CBC(AES(ramp(16)), cv(ramp(16, 9, 4))), 'CBC-DES iv': lambda cv: Mo.CBC(DES(ramp(8, 3, 1)), cv(ramp(8, 9, 4))),
+        'CTS_CBC-AES iv': lambda cv: Mo.CTS_CBC(AES(ramp(16)), cv(ramp(16, 9, 4))), 'ECB-AES key': lambda cv: Mo.ECB(AES(cv(ramp(16)))),
+        'ECB-DES key': lambda cv: Mo.ECB(DES(cv(ramp(8, 3, 1)))), 'ECB-Threefish key+tweak': lambda cv: Mo.ECB(Threefish(cv(ramp(32)), cv(ramp(16, 3)))),
+        'HMAC-MD5 key': lambda cv: HMAC(MD5(), cv(b'key material')), 'Skein-mac key': lambda cv: Skein(256, 256, key=cv(b'key'), nonce=cv(b'n')),
+    }
+
+
+def pts_ctor(tier):
+    return sorted(_ctor_kinds())
+
+
+def run_ctor(ctx, name):
+    mk = _ctor_kinds()[name]
+    m = expander(150, 92)
+    call = (lambda o, x: o.enc(x)) if hasattr(mk(bytes), 'enc') else (lambda o, x: o(x))
+    want = []
+    ob = mk(bytes)
+    for k in range(3):
+        r = ctx.attempt(call, ob, m[:40 + k])
+        want.append((r[0], obs(r[1])))
+    for conv in (bytearray, memoryview):
+        try:
+            o2 = mk(conv)
+        except Exception:
+            continue
+        got = []
+        for k in range(3):
+            r = ctx.attempt(call, o2, m[:40 + k])
+            got.append((r[0], obs(r[1])))
+        if all(g[0] == 'ok' for g in got):
+            ctx.eq('C10/%s/constructor-argument-as-%s/three-calls' % (name, conv.__name__), got, want)
+
+
 def pts_types(tier):
     return [(k, n) for k in sorted(_typed_kinds()) for n in (0, 1, 55, 64, 65, 150, 700)]
 
@@ -615,6 +660,8 @@ def run_firstuse(ctx, pt):
 def subchecks():
     return [Sub('deep-copies', pts_deepcopy, run_deepcopy, engine='H', chunk=1,
                 bound='every object kind of the histories subcheck (module instances excepted): a deep copy taken from a fresh object and after each of its first 6 events; up to 4 judged calls on the copy, on the original, on the copy again vs pristine answers'),
+            Sub('constructor-argument-types', pts_ctor, run_ctor, engine='P',
+                bound='8 object kinds whose key / IV / tweak / nonce is handed to the constructor as bytearray or memoryview: three calls in a row equal the three calls of the object built from bytes (kinds that refuse the type are not judged)'),
             Sub('argument-types', pts_types, run_types, engine='P',
                 bound='24 object kinds x 7 message lengths: the message as bytes, bytearray, memoryview and list of ints - a returned value equals the one for bytes (refusals are not judged)'),
             Sub('first-use-pairs', pts_firstuse, run_firstuse, engine='H', chunk=1,
